@@ -4,7 +4,12 @@ SRC_TIE = {
     "C02": " SOURCE TIE BY PROOF: UtestShell::getNext / addTest / countTests, UtestShellPointerArray::swap / get / relinkTestsInOrder / reverse / shuffle "
            "and TestRegistry::addTest / getFirstTest / getTestWithNext / countTests are regenerated from the source on every run (tools/cxx2heap.py; "
            "PlatformSpecificRand() as a ghost stream) and proved to implement the model's relink / reverse / shuffle / add_test on the heap "
-           "representation (shells pairwise distinct); TestFilter::match is tied as a translated leaf. runAllTests itself stays model + correspondence.",
+           "representation (shells pairwise distinct); TestFilter::match is tied as a translated leaf. TestRegistry::runAllTests with testShouldRun / endOfGroup "
+           "is translated too (gen/Gen_HeapC02R.v; the calls on the TestResult and the virtual calls on the test as ghost events, shouldRun as a ghost stream) "
+           "and proved to perform the model's run_loop walk: one RCountTest per registered test in list order, runOneTest exactly once for every selected "
+           "test and never otherwise with the plugin chain of the registry, group start/end alternating, the separate-process flag stored in every shell iff "
+           "requested, currentRepetition_ + 1; read back through abs_run the events equal run_all_tests, so rep_ok (the C02 property of one repetition) "
+           "holds of the translated source (src_runAllTests_meets_C02).",
     "C03": " SOURCE TIE BY PROOF: the assert entry points of UtestShell (18 functions; assertDoublesEqual through its predicate doubles_equal) are "
            "regenerated from Utest.cpp on every run (tools/cxx2gal.py; countCheck and failWith as ghost events) and proved to count exactly once and to "
            "record exactly one failure of the named class at the file and line passed in iff the model's predicate is false. The macro layer "
